@@ -59,6 +59,9 @@ class Canon(object):
         t = type(o)
         if t is int:
             lab = self.id_labels.get(o)
+            if lab is None and o.bit_length() > 8192:
+                # integers beyond the interpreter's int->str digit limit cannot be printed (the key is digested from its repr)
+                return ("bigint", o.bit_length(), hash(o))
             return ("id", lab) if lab is not None else o
         if t is float or t is str:
             return o
